@@ -75,6 +75,7 @@ type Node struct {
 	Barrier int
 	BGroup  string // name of a parameter whose value is passed as rendezvous group
 	Prefix  string // text put in front of the command, e.g. "false |" (a pipeline)
+	Suffix  string // text appended to the command, e.g. "&& false && true" (an && list whose middle step fails)
 	Prepend string // Process.Prepend (a launcher such as "nice -n 10")
 	PadTo   int
 	GlueIn  bool // in-path placeholders glued to an option: -i={i:x}
@@ -172,6 +173,9 @@ func (w *WF) Describe() string {
 		}
 		if n.Prefix != "" {
 			fmt.Fprintf(&b, " prefix=%q", n.Prefix)
+		}
+		if n.Suffix != "" {
+			fmt.Fprintf(&b, " suffix=%q", n.Suffix)
 		}
 		if len(n.Extras) > 0 {
 			fmt.Fprintf(&b, " extras=%v", n.Extras)
